@@ -55,6 +55,18 @@ theorem arc_conforming_image (c : Codec) (p : Profile) (img : Bytes) (a : BinArc
   simp only [fromBytes, hC01]
   exact arc_conforming p a (parse_endian c _ img a hC01) hc hN
 
+/-- The layout relation is unambiguous: an archive conforms to the arc layout for at most one
+ordered file list (whatever the padding flag), so "the files the archive holds" is well defined
+independently of the reader. -/
+theorem arc_conforming_unique (a : BinArchive) (hle : a.endian = .little)
+    {files files' : List (Str × Bytes)} {padded padded' : Bool}
+    (hc : ConformsArc (contentOf a) files padded) (hc' : ConformsArc (contentOf a) files' padded')
+    (hN : DistinctNames files) (hN' : DistinctNames files') : files = files' := by
+  have h1 := arc_conforming .checked a hle hc hN
+  have h2 := arc_conforming .checked a hle hc' hN'
+  have := h1.symm.trans h2
+  injection this
+
 /-- **No `Count` label** ⇒ `NoCount`, whatever else the archive holds. -/
 theorem arc_no_count (p : Profile) (a : BinArchive) (h : NoLabel (contentOf a) Spec.Arc.COUNT) :
     fromArchive p a = .err .NoCount := by
